@@ -42,6 +42,62 @@ def replay_h_levels(r1, r2, r3):
                                        "types %r" % ([r1, r2, r3],)
 
 
+def h_levels_two_columns(a1: int, a2: int, a3: int, b1: int, b2: int, b3: int) -> bool:
+    """
+    pre: all(0 <= r <= 2 for r in (a1, a2, a3, b1, b2, b3))
+    post: __return__
+    """
+    # two nested columns in one schema: their inner fields carry the same names (list / element) with independent
+    # repetition types - the levels of each path are those of its own elements
+    els = [parquet_thrift.SchemaElement(name="schema", num_children=2),
+           parquet_thrift.SchemaElement(name="a", num_children=1, repetition_type=a1, converted_type=3),
+           parquet_thrift.SchemaElement(name="list", num_children=1, repetition_type=a2),
+           parquet_thrift.SchemaElement(name="element", type=2, repetition_type=a3),
+           parquet_thrift.SchemaElement(name="b", num_children=1, repetition_type=b1, converted_type=3),
+           parquet_thrift.SchemaElement(name="list", num_children=1, repetition_type=b2),
+           parquet_thrift.SchemaElement(name="element", type=2, repetition_type=b3)]
+    h = SchemaHelper(els)
+    ok = True
+    for col, reps in (("a", [a1, a2, a3]), ("b", [b1, b2, b3])):
+        path = [col, "list", "element"]
+        want_def = len([r for r in reps if r != REQ])
+        want_rep = len([r for r in reps if r == REP])
+        ok = ok and h.max_definition_level(path) == want_def and h.max_repetition_level(path) == want_rep
+        ok = ok and h.is_required(path) == (want_def == 0)
+        ok = ok and h.schema_element(path).repetition_type == reps[2]
+        ok = ok and h.max_definition_level(".".join(path)) == want_def
+    return ok
+
+
+def replay_h_levels_two_columns(a1, a2, a3, b1, b2, b3):
+    """a file built from the specification with two LIST columns of the witness's nullabilities, read back"""
+    import os, shutil, tempfile
+    if (a1, b1) != (OPT, OPT) and (a1, b1) != (REQ, REQ) or a2 != REP or b2 != REP or REP in (a1, a3, b1, b3):
+        bad = not h_levels_two_columns(a1, a2, a3, b1, b2, b3)
+        return bad, "schema level functions disagree with the format's definition for two nested columns with " \
+                    "repetition types %r / %r" % ([a1, a2, a3], [b1, b2, b3])
+    import fastparquet
+    from vf.pyxlift import nested_file
+    d = tempfile.mkdtemp(prefix="c15-")
+    try:
+        fn = os.path.join(d, "two.parq")
+        rows_a, rows_b = [[1, 2, 3], [4]], [[7], [8, 9]]
+        nested_file.build_two_lists(fn, rows_a, a1 == OPT, a3 == OPT, rows_b, b1 == OPT, b3 == OPT)
+        try:
+            out = fastparquet.ParquetFile(fn).to_pandas()
+        except Exception as ex:
+            return True, "two LIST columns (nullabilities %r / %r) cannot be read: %s: %s" % (
+                [a1, a3], [b1, b3], type(ex).__name__, str(ex)[:80])
+        ga = [None if v is None else [int(x) for x in v] for v in out["a"]]
+        gb = [None if v is None else [int(x) for x in v] for v in out["b"]]
+        if ga != rows_a or gb != rows_b:
+            return True, "two LIST columns (list/element nullable: %r / %r) holding %r and %r read back as %r and %r" % (
+                [a1 == OPT, a3 == OPT], [b1 == OPT, b3 == OPT], rows_a, rows_b, ga, gb)
+        return False, "both columns read back"
+    finally:
+        shutil.rmtree(d, ignore_errors=True)
+
+
 class _Col:
     class meta_data:
         path_in_schema = ["col", "list", "element"]
